@@ -1,0 +1,54 @@
+//! Verification hooks (feature `memcrs_verif`): scheduling points and data choices
+//! are delegated to callbacks registered by an external harness.
+use std::sync::OnceLock;
+
+pub use std::sync::atomic::Ordering;
+
+pub struct Hooks {
+    pub sched_point: fn(&'static str),
+    pub choose: fn(usize) -> Option<usize>,
+}
+
+static HOOKS: OnceLock<Hooks> = OnceLock::new();
+
+pub fn set_hooks(hooks: Hooks) -> bool {
+    HOOKS.set(hooks).is_ok()
+}
+
+pub fn sched_point(label: &'static str) {
+    if let Some(h) = HOOKS.get() {
+        (h.sched_point)(label)
+    }
+}
+
+pub fn choose(n: usize) -> Option<usize> {
+    HOOKS.get().and_then(|h| (h.choose)(n))
+}
+
+#[derive(Default)]
+pub struct AtomicU64(std::sync::atomic::AtomicU64);
+
+impl AtomicU64 {
+    pub const fn new(v: u64) -> Self {
+        AtomicU64(std::sync::atomic::AtomicU64::new(v))
+    }
+    pub fn load(&self, o: Ordering) -> u64 {
+        sched_point("atomic.load");
+        self.0.load(o)
+    }
+    pub fn store(&self, v: u64, o: Ordering) {
+        sched_point("atomic.store");
+        self.0.store(v, o)
+    }
+    pub fn fetch_add(&self, v: u64, o: Ordering) -> u64 {
+        sched_point("atomic.fetch_add");
+        self.0.fetch_add(v, o)
+    }
+    pub fn fetch_sub(&self, v: u64, o: Ordering) -> u64 {
+        sched_point("atomic.fetch_sub");
+        self.0.fetch_sub(v, o)
+    }
+    pub fn verif_peek(&self) -> u64 {
+        self.0.load(Ordering::SeqCst)
+    }
+}
